@@ -197,6 +197,12 @@ def fault_files(td: Path) -> list[tuple[str, list[str]]]:
     sc.append(("utf8-bom", [w("bom.py", b"\xef\xbb\xbf" + body.encode())]))
     sc.append(("crlf", [w("crlf.py", b"x = int(0)\r\ny = 1\r\n")]))
     sc.append(("cr-only", [w("cr.py", b"x = int(0)\ry = 1\r")]))
+    # findings on later lines (what refurb reads back for `# noqa` and columns must have as many lines as mypy saw)
+    late = "a = 1\nx = int(0)\ns = 'q'\ny = int(a)  # noqa: FURB999\nz = str('')\n"
+    sc.append(("cr-only-late-findings", [w("cr_late.py", late.replace("\n", "\r").encode())]))
+    sc.append(("crlf-late-findings", [w("crlf_late.py", late.replace("\n", "\r\n").encode())]))
+    sc.append(("mixed-line-endings", [w("mixed.py", b"a = 1\rx = int(0)\r\ns = 'q'\ny = int(a)\rz = str('')")]))
+    sc.append(("exotic-separators-late-findings", [w("exo.py", "a = '\x0b'\nx = int(0)  # \x0c\ns = '\x1c\x1d\x1e'\ny = int(1)  # \x85\u2028\nz = str('')\n".encode())]))
     sc.append(("formfeed", [w("ff.py", b"s = 'a\x0cb'\nx = int(0)\n")]))
     sc.append(("unicode-linesep", [w("ls.py", "s = 'a\u2028b'\nx = int(0)\n".encode())]))
     sc.append(("nul-byte", [w("nul.py", b"x = int(0)\x00\n")]))
